@@ -13,10 +13,45 @@ COMMON_ASSUMPTIONS = [
     "left-to-right evaluation order, id() injective on live objects, weakref.proxy/ref transparent (DESIGN 2.3)",
 ]
 
+def _lemmas_cnt():
+    from contracts.callbacks import lemma_cnt_monotone
+    return lemma_cnt_monotone()
+
+
+def _lemma_not_wedged():
+    """C04: after a failed outermost drain the engine satisfies the precondition of the next
+    outermost call again (lock free, queue empty), so the next event is processed normally."""
+    import z3
+    from pyvc.core import Exc, Obligation, O, Run, StateView, fresh, Int
+    from types import SimpleNamespace
+    from contracts.engines import SyncProcessingLoop, is_exception
+    from contracts.model import W, locked, qh, qt, rtc
+    c = SyncProcessingLoop()
+    run = Run("lemma")
+    s0, s1 = StateView(run, {}), StateView(Run("lemma1"), {})
+    # two unrelated symbolic heaps: give the second its own constants
+    run1 = s1._run
+    a = SimpleNamespace(self=O(W.ENG, "SyncEngine"))
+    tag = fresh("tag", Int)
+    x = Exc(tag, {})
+    outer = z3.And(rtc(s0), z3.Not(locked(s0)))
+    pre = list(c.pre(s0, a).values())
+    frame = [s1["Engine._rtc"] == s0["Engine._rtc"]]
+    exc_post = list(c.exc_post(s0, s1, a, x).values())
+    goal = z3.And(rtc(s1), z3.Not(locked(s1)), qh(s1) == qt(s1))
+    return [Obligation("lemma:C04|not-wedged/exc-post-of-outer-drain-reestablishes-outer-precondition", "lemma", "lemma",
+                       pre + frame + exc_post + [outer, is_exception(x)], goal)]
+
+
+def _scans_engine():
+    from . import scans
+    return scans.scan_state_field_writers() + scans.scan_queue_mutators() + scans.scan_lock_operations()
+
+
 PROPERTIES = {
-    "C01": {},
-    "C02": {},
-    "C03": {},
-    "C04": {},
+    "C01": {"scans": [_scans_engine]},
+    "C02": {"lemmas": [_lemmas_cnt], "scans": [_scans_engine]},
+    "C03": {"scans": [_scans_engine]},
+    "C04": {"lemmas": [_lemma_not_wedged], "scans": [_scans_engine]},
     "C14": {},
 }
